@@ -281,4 +281,45 @@ pub mod adapt {
             proof { assert(self.rem() =~= rem0.skip(amt as int)); }
         }
     }
+
+    // ---- std::io::Bytes (`Read::bytes()`), rewrite rule R22 -----------------------------------------
+    // Verified stand-in: yields the source's bytes one at a time, in order; `None` only when a read of one byte
+    // returns 0; an error is handed on and consumes nothing.  (std's `Bytes::next` additionally retries on
+    // ErrorKind::Interrupted; the I/O model has no error kinds.)
+    pub struct BytesShim<R: std::io::Read> { pub inner: R }
+
+    impl<R: std::io::Read> BytesShim<R> {
+        pub fn new(inner: R) -> (r: Self)
+            ensures r.inner == inner,
+        {
+            BytesShim { inner }
+        }
+        pub fn next(&mut self) -> (r: Option<std::io::Result<u8>>)
+            ensures
+                final(self).inner.reliable() == old(self).inner.reliable(),
+                match r {
+                    None => final(self).inner.remaining() == old(self).inner.remaining()
+                        && old(self).inner.remaining().len() == 0,
+                    Some(Ok(b)) => old(self).inner.remaining().len() > 0 && b == old(self).inner.remaining()[0]
+                        && final(self).inner.remaining() == old(self).inner.remaining().skip(1),
+                    Some(Err(_)) => final(self).inner.remaining() == old(self).inner.remaining()
+                        && !old(self).inner.reliable(),
+                },
+        {
+            let mut buf = [0u8; 1];
+            let ghost rem0 = self.inner.remaining();
+            match self.inner.read(&mut buf) {
+                Ok(n) => {
+                    if n == 0 {
+                        proof { assert(rem0.skip(0) =~= rem0); }
+                        None
+                    } else {
+                        proof { assert(buf@.take(1)[0] == rem0.take(1)[0]); }
+                        Some(Ok(buf[0]))
+                    }
+                },
+                Err(e) => Some(Err(e)),
+            }
+        }
+    }
 }
